@@ -121,3 +121,69 @@ Definition g_blocks (a : gfile) : list lblock := map g_blk (gf_live a).
 (* a packed file of AFile.v seen as a file with (no) holes *)
 Definition g_of_a (a : afile) : gfile :=
   mkGF (a_n a) (map (mkG []) (a_live a)) [] [] (a_free a).
+
+(* ---------- deciding [ordered] (the lemmas are in Proofs/OrderedDec.v) ----------
+   [orderedb s] reads an abstract file with holes off the concrete state, lays it out again and COMPARES the result
+   with s: it certifies its own answer, so soundness needs nothing about the reading. *)
+Fixpoint zlist_eqb (a b : list Z) : bool :=
+  match a, b with
+  | [], [] => true
+  | x :: a', y :: b' => (x =? y) && zlist_eqb a' b'
+  | _, _ => false
+  end.
+Definition entry_eqb (a b : entry) : bool :=
+  (e_type a =? e_type b) && (e_format a =? e_format b) && (e_off a =? e_off b) && (e_size a =? e_size b) &&
+  (e_cdate a =? e_cdate b) && (e_mdate a =? e_mdate b) && (e_adate a =? e_adate b) && zlist_eqb (e_comment a) (e_comment b).
+Fixpoint table_eqb (a b : list entry) : bool :=
+  match a, b with
+  | [], [] => true
+  | x :: a', y :: b' => entry_eqb x y && table_eqb a' b'
+  | _, _ => false
+  end.
+Definition state_eqb (a b : cstate) : bool :=
+  (s_n a =? s_n b) && table_eqb (mem a) (mem b) && table_eqb (tab a) (tab b) && zlist_eqb (data a) (data b).
+(* ---------- reading the abstract file off a state ---------- *)
+Definition bytes_at (d : list Z) (start len : Z) : list Z :=
+  firstn (Z.to_nat len) (skipn (Z.to_nat start) d).
+
+Definition lb_of_entry (e : entry) (payload : list Z) : lblock :=
+  mkL (e_type e) (e_format e) (e_cdate e) (e_mdate e) (e_adate e) (e_comment e) payload.
+
+(* live entries in table order; [pos] = offset where the previous block ended *)
+Fixpoint read_live (n : Z) (d : list Z) (pos : Z) (l : list entry) : list gblock * Z * list entry :=
+  match l with
+  | e :: r =>
+      if is_live e then
+        let g := mkG (bytes_at d (pos - base n) (e_off e - pos))
+                     (lb_of_entry e (bytes_at d (e_off e - base n) (e_size e))) in
+        let '(gs, endp, rest) := read_live n d (e_off e + e_size e) r in
+        (g :: gs, endp, rest)
+      else ([], pos, l)
+  | [] => ([], pos, [])
+  end.
+
+Definition slot_of_entry (e : entry) : fslot := mkF (e_format e) (e_cdate e) (e_mdate e) (e_adate e) (e_comment e).
+
+Definition gfile_of (s : cstate) : gfile :=
+  let n := s_n s in
+  let '(gs, endp, rest) := read_live n (data s) (base n) (tab s) in
+  let E := match rest with f :: _ => e_off f | [] => endp end in
+  let total_len := zlength (data s) in
+  match rest with
+  | [] => mkGF n gs [] (bytes_at (data s) (endp - base n) (total_len - (endp - base n))) []
+  | _ :: _ => mkGF n gs (bytes_at (data s) (endp - base n) (E - endp))
+                   (bytes_at (data s) (E - base n) (total_len - (E - base n))) (map slot_of_entry rest)
+  end.
+
+(* the side conditions of g_inv, as a boolean *)
+Fixpoint nodupb (l : list Z) : bool :=
+  match l with [] => true | x :: r => negb (existsb (Z.eqb x) r) && nodupb r end.
+Definition g_invb (a : gfile) : bool :=
+  forallb (fun g => negb (l_type (g_blk g) =? 0)) (gf_live a) &&
+  (zlength (gf_live a) + zlength (gf_free a) =? gf_n a) &&
+  (match gf_free a with [] => match gf_gap a with [] => true | _ => false end | _ => true end) &&
+  nodupb (g_types a).
+
+Definition orderedb (s : cstate) : bool :=
+  let a := gfile_of s in g_invb a && state_eqb s (gconc a).
+
